@@ -23,7 +23,7 @@ func init() {
 	})
 	register("C07", &propDef{
 		Title: "Accepted remote addresses always satisfy the documented transport policy",
-		Rules: []func(*Checker){ruleC07Routes, ruleC07Schemes, ruleC07Query, ruleC07ArchiveSuffix, ruleTypePrefixAnchored("C07.typeprefix"), ruleC06SubpathOnly("C07.subpath"), ruleAddrErrors("C07.errors"), ruleNameAgreement("C07.names", "sourceaddrs"), ruleURLFields("C07.urlfields"),
+		Rules: []func(*Checker){ruleC07Routes, ruleC07Schemes, ruleC07Query, ruleC07ArchiveSuffix, ruleTypePrefixAnchored("C07.typeprefix"), ruleHostOpaque("C07.hostopaque"), ruleC06SubpathOnly("C07.subpath"), ruleAddrErrors("C07.errors"), ruleNameAgreement("C07.names", "sourceaddrs"), ruleURLFields("C07.urlfields"),
 			aliasRuleFiltered(ruleC06FinalPattern, "C06.finalpattern", "C07.finalclass", 1, func(o Oblig) bool { return strings.Contains(o.Key, "parser's groups") })},
 		NotDecided: []string{
 			"'every address that follows the documented grammar is accepted' (needs the grammar)",
